@@ -57,6 +57,9 @@ impl DetectProp for C10 {
         if idx % 16 == 7 {
             c = multi_candidate_case(rng);
         }
+        if idx % 16 == 3 || idx % 16 == 11 {
+            c = declared_tied_case(rng);
+        }
         c
     }
     fn directed(&self, thorough: bool) -> Vec<Case> {
